@@ -517,7 +517,7 @@ func checkC14Router(sc *Scenario) *CheckOut {
 
 func c14RouterClient(sc *Scenario, recs []*ReqRec, nocache *World, concurrent bool, out *CheckOut, fail func(*ReqRec, string, string, ...any)) {
 	for i, rec := range recs {
-		route, _, _ := nocache.R.Match(rec.Method, nocache.EffPath(rec.Path))
+		route, _, _ := nocache.R.QuickMatch(rec.Method, nocache.EffPath(rec.Path))
 		if route == nil || !strings.ContainsAny(route.Path(), "{[") {
 			continue
 		}
